@@ -111,7 +111,7 @@ void verif_enum(Enum &e) {
 		// tape prefix: kind, nthreads-2, then acquisitions-1 per thread
 		std::vector<uint32_t> prefix = shape == 0 ? std::vector<uint32_t>{kind, 0, 1, 1} : std::vector<uint32_t>{kind, 1, 0, 0, 0};
 		std::vector<uint32_t> choices; uint64_t runs = 0; bool more = true;
-		uint64_t cap = e.tier == "thorough" ? 300000 : 4000;
+		uint64_t cap = e.tier == "thorough" ? 60000 : 4000;
 		while(more && runs < cap) {
 			std::vector<uint32_t> tape = prefix; tape.insert(tape.end(), choices.begin(), choices.end());
 			if(!e.run(tape)) return;
